@@ -39,6 +39,14 @@ def scenarios(tier):
                 pick.append({x: ['E' if x == k else 'S'] for x in keys})
             pick.append({k: ['E'] for k in keys})
             assigns = pick
+        if name == 'items_parallel':
+            assigns = [
+                {'a0': ['S'], 'a1': ['S'], 'b0': ['S'], 'b1': ['S'],
+                 'c': ['S']},
+                {'a0': ['S'], 'a1': ['E'], 'b0': ['S'], 'b1': ['S'],
+                 'c': ['S']},
+                {'a0': ['S'], 'a1': ['S'], 'b0': ['E'], 'b1': ['S'],
+                 'c': ['S']}]
         if name.startswith('cyc_'):
             # the second pass through the loop fails
             keys = wfgen.action_keys(prog)
@@ -47,7 +55,8 @@ def scenarios(tier):
                 for k in keys if k not in ('s', 'c', 'h')]
         for ai, res in enumerate(assigns):
             tag = ''.join(''.join(res[k]) for k in sorted(res))
-            scn = wfscn.ProgScenario('%s/%s' % (name, tag), prog, results=res)
+            scn = wfscn.ProgScenario('%s/%s' % (name, tag), prog, results=res,
+                                     compare_ctx=(name != 'items_parallel'))
             if n <= EXHAUST_SIZE:
                 bound = None
             else:
